@@ -102,7 +102,7 @@ def psk_auth(prf_id, psk, octets):
 
 # ---- SK payload (section 3.14) --------------------------------------------------------------
 def protect(header28, first_inner_type, inner, sk_e, sk_a, integ_id, iv, pad_extra_blocks=0, padbytes=None,
-            pure=False):
+            pure=False, clear=b'', clear_first=46):
     """Returns the whole datagram: header (length fixed up, next payload = 46) | SK generic header |
     IV | ciphertext | ICV."""
     n = len(inner) + 1
@@ -112,11 +112,11 @@ def protect(header28, first_inner_type, inner, sk_e, sk_a, integ_id, iv, pad_ext
     ct = (aes.cbc_encrypt if pure else aes.fast_cbc_encrypt)(sk_e, iv, plain)
     il = icv_len(integ_id)
     sk_len = 4 + len(iv) + len(ct) + il
-    total = 28 + sk_len
+    total = 28 + len(clear) + sk_len
     hdr = bytearray(header28[:28])
-    hdr[16] = 46
+    hdr[16] = clear_first if clear else 46          # `clear`: payloads in front of SK (their last next-payload octet says 46)
     hdr[24:28] = struct.pack('>L', total)
-    body = bytes(hdr) + struct.pack('>BBH', first_inner_type, 0, sk_len) + bytes(iv) + ct
+    body = bytes(hdr) + bytes(clear) + struct.pack('>BBH', first_inner_type, 0, sk_len) + bytes(iv) + ct
     return body + icv(integ_id, sk_a, body)
 
 
